@@ -207,7 +207,7 @@ for _p in ('C01', 'C02', 'C04', 'C05', 'C14', 'C06'):
     PROPS[_p].setdefault('static', [])
     PROPS[_p]['static'] = list(PROPS[_p]['static']) + [('solver-constants-threshold-1e-6-and-6-digits', ST.solver_constants)]
 
-A_IO = "open/read/write/eval are external: a file opened for writing is a ghost list of the strings written to it (plus its path and mode); read() returns an uninterpreted CONTENT(path); eval is an uninterpreted EVAL; x.split(c)[0] / [-1] are the z3 string terms 'before the first / after the last occurrence of c'"
+A_IO = "open/read/write/eval are external: a file opened for writing is a ghost string, the concatenation of everything written to it (plus its path and mode); read() returns an uninterpreted CONTENT(path); eval is an uninterpreted EVAL; x.split(c)[0] / [-1] are the z3 string terms 'before the first / after the last occurrence of c'"
 A_FMT = "A-FMT: {value} in an f-string is an uninterpreted, type-indexed function fmt(value); that fmt followed by ast.literal_eval gives the value back (None, bools, ints, floats, strings, nested lists) is covered by the bounded executable contract only"
 PROPS['C16'] = dict(
     functions=fns('C16'),
@@ -215,7 +215,7 @@ PROPS['C16'] = dict(
     trusted_base=['spec function Blocks of contracts/conditionalrewards.py: the 16 strings of a block with the field each line prints (written from the statement)'],
     undecided_clauses=["'every line reads back to exactly the value the batch run produced' needs repr/format/eval semantics (A-FMT): bounded -- the real save_results_to_file is run on real batch results and every line is parsed back with ast.literal_eval",
                        "'the input file itself is read into the same games it textually denotes' is eval's semantics: the contract only fixes that the file named by the argument is read once and its evaluation returned iff it is a dict"],
-    level_text="From the real AST, for result dictionaries with any number of entries and any values: save_results_to_file opens exactly 'outputs/' + <last path component up to its first dot> + '.txt' for writing and the sequence of strings it writes equals Blocks(results): one block per entry in dictionary order, each of the 14 lines printing the field the statement names (message, counts, iteration counts, both strategy lists, their equality flag, probabilities, probabilities under minimal reward, rewards, rewards under minimal reachability, total time); read_dict_from_file returns EVAL(CONTENT(file)) iff it is a dict and raises ValueError otherwise.",
+    level_text="From the real AST, for result dictionaries with any number of entries and any values: save_results_to_file opens exactly 'outputs/' + <last path component up to its first dot> + '.txt' for writing and the text it writes (the concatenation of all write/writelines arguments) equals Blocks(results): one block per entry in dictionary order, each of the 14 lines printing the field the statement names (message, counts, iteration counts, both strategy lists, their equality flag, probabilities, probabilities under minimal reward, rewards, rewards under minimal reachability, total time); read_dict_from_file returns EVAL(CONTENT(file)) iff it is a dict and raises ValueError otherwise.",
     level_note="Trusted: z3 (sequence/string theory for the path), the encoder's ghost model of files, A-FMT. The textual round trip is bounded only.",
 )
 
